@@ -127,5 +127,76 @@ def run(ctx, rep):
     rule_created_reset(P, rep, 'R-C12-7')
     from .C07 import rule_finished_only_processed
     rule_finished_only_processed(P, rep, 'R-C12-8')
+    from .C17 import chsize_full_size_rule
+    chsize_full_size_rule(P, rep, 'R-C12-9')
+    nofollow_rule(P, rep, 'R-C12-3n')
     rep.extra['effects_per_command'] = summary
     rep.extra['write_sites'] = len(sites)
+
+
+ARGBIT = 1 << 40
+
+
+def must_bits(f, o, seen=None):
+    """bits certainly set in an int flag value: constants OR-ed on every reaching definition (parameters contribute the symbolic
+    bit ARGBIT << index so that a pass-through wrapper can be summarised)"""
+    seen = set() if seen is None else seen
+    o = f.strip(o)
+    if o[0] == 'c':
+        return o[1]
+    if o[0] == 'a':
+        return ARGBIT << o[1]
+    if o[0] != 'i' or o[1] in seen:
+        return 0
+    i = f.insts[o[1]]
+    seen = seen | {i.id}
+    if i.op == 'or':
+        return must_bits(f, i.ops[0], seen) | must_bits(f, i.ops[1], seen)
+    if i.op == 'and':
+        return must_bits(f, i.ops[0], seen) & must_bits(f, i.ops[1], seen)
+    if i.op in ('select', 'phi'):
+        vs = [must_bits(f, v, seen) for v in (i.ops[1:] if i.op == 'select' else i.ops)]
+        r = vs[0]
+        for v in vs[1:]:
+            r &= v
+        return r
+    if i.op == 'load':
+        a = f.strip(i.ops[0])
+        if a[0] == 'i' and f.insts[a[1]].op == 'alloca' and all(u.op == 'load' or (u.op == 'store' and f.strip(u.ops[1]) == a) for u in f.users.get(a[1], ())):
+            r = None
+            for s in f.reaching_stores(a[1], i):
+                v = 0 if s is None else must_bits(f, s.ops[0], seen)
+                r = v if r is None else r & v
+            return r or 0
+    return 0
+
+
+# functions that open a path inside a data disk for the array (recorded files being read, rebuilt, re-created or touched).  They must
+# never follow a symbolic link found at that path: a link planted (or recorded) there would make fix / touch / sync read or overwrite
+# a file outside the array.  Not listed: import / search / content / parity / device probes (paths given by the user, not array members)
+NOFOLLOW_OPENERS = ('handle_create', 'handle_open', 'state_check_process', 'state_touch')
+O_NOFOLLOW_BIT = 0o400000
+
+
+def nofollow_rule(P, rep, rid):
+    rep.rule(rid, 'every open of a path inside a data disk (handle_create, handle_open, fix re-creating an empty file, touch) carries O_NOFOLLOW on every definition of its flags; the O_NOATIME wrapper passes the flags through', 7)
+    wrappers = {}
+    if P.has('open_noatime'):
+        w = P.fn('open_noatime')
+        rep.analysed(w)
+        ops_ = list(w.calls('open'))
+        okw = bool(ops_) and all(must_bits(w, c.ops[1]) & (ARGBIT << 1) for c in ops_)
+        rep.check(okw, rid, 'open_noatime passes its flags to open()', w.file, '%d open calls' % len(ops_), function='open_noatime', construct='flags pass-through')
+        wrappers['open_noatime'] = 1
+    n = 0
+    for fn in NOFOLLOW_OPENERS:
+        f = P.fn(fn)
+        rep.analysed(f)
+        for c in f.calls({'open'} | set(wrappers)):
+            mb = must_bits(f, c.ops[1])
+            n += 1
+            rep.check(bool(mb & O_NOFOLLOW_BIT), rid, '%s: %s(%s, ...) has O_NOFOLLOW' % (fn, c.callee, f.expr(c.ops[0])[:40]), c.loc(),
+                      'bits set on every path: %s' % oct(mb & (ARGBIT - 1)) if mb & O_NOFOLLOW_BIT else 'the flags (%s; certain bits %s) lack O_NOFOLLOW: a symbolic link at that path is followed and a file outside the array is opened%s' % (f.expr(c.ops[1])[:60], oct(mb & (ARGBIT - 1)), ' for writing' if mb & 0o1103 else ''),
+                      function=fn, construct='open flags')
+    if n < 6:
+        raise AnalysisBroken('data-disk open sites not found (%d)' % n)
